@@ -536,6 +536,63 @@ func (Engine) RunOne(t *core.Tape, prop, tier string, info *core.RunInfo) *core.
 			return viol("liveness", "liveness/honest-class-not-signed", "fault-free run: node %d did not produce a signature (holds %d partials, t=%d)", i, len(nd.accepted), th)
 		}
 	}
+	// ---- the next session of the same process, after the long-term key was RESHARED (same public key,
+	// new polynomial and shares) with a fresh one-time key: valid partials are accepted, partials made
+	// with the outdated shares are refused (seed C12f: public shares memoised per public key) ----
+	if t.Bool("cfg.next", 250) {
+		secret := kit.BigScalar(suite, kit.LagrangeAt0(idx, func() []*big.Int {
+			o := make([]*big.Int, th)
+			for i := 0; i < th; i++ {
+				o[i] = kit.ScalarBig(longs[i].PriShare().V)
+			}
+			return o
+		}()))
+		pri := share.NewPriPoly(suite, uint32(th), secret, suite.XOF(t.Bytes("cfg.next", 16)))
+		pub := pri.Commit(suite.Point().Base())
+		_, commits := pub.Info()
+		longs2 := make([]dss.DistKeyShare, n)
+		for i, sh := range pri.Shares(uint32(n)) {
+			longs2[i] = &plainDKS{sh: sh, commits: commits}
+		}
+		rands3, err := mk(3)
+		if err != nil {
+			return viol("setup", "setup/dkg-random-failed", "honest set-up DKG failed: %v", err)
+		}
+		msg2 := append(kit.CopyBytes(msg), 0x42)
+		ds := make([]*dss.DSS, n)
+		ps := make([]*dss.PartialSig, n)
+		for i := 0; i < n; i++ {
+			d, err := dss.NewDSS(kit.Ed(), privs[i], kit.CopyPoints(suite, pubs), longs2[i], rands3[i], kit.CopyBytes(msg2), uint32(th))
+			if err != nil {
+				return viol("setup", "setup/newdss", "NewDSS (session after resharing) failed for participant %d: %v", i, err)
+			}
+			ds[i] = d
+			if ps[i], err = d.PartialSig(); err != nil {
+				return viol("setup", "setup/partialsig", "PartialSig (session after resharing): %v", err)
+			}
+		}
+		// a partial made with the OUTDATED long-term share of participant 1, correctly signed by it
+		if stale, err := dss.NewDSS(kit.Ed(), privs[1], kit.CopyPoints(suite, pubs), longs[1], rands3[1], kit.CopyBytes(msg2), uint32(th)); err == nil {
+			if sp, err := stale.PartialSig(); err == nil && !sp.Partial.V.Equal(ps[1].Partial.V) {
+				if ds[0].ProcessPartialSig(sp) == nil {
+					return viol("rejects-bad", "next-session/accepted-outdated-share", "after a resharing of the long-term key, node 0 accepted a partial of participant 1 made with its share from before the resharing")
+				}
+			}
+		}
+		for j := 1; j < n; j++ {
+			if err := ds[0].ProcessPartialSig(ps[j]); err != nil {
+				return viol("accepts-good", "next-session/rejected-valid", "after a resharing of the long-term key (same public key), node 0 rejects the valid partial of participant %d: %v", j, err)
+			}
+		}
+		sig2, err := ds[0].Signature()
+		if err != nil {
+			return viol("liveness", "next-session/no-signature", "session after resharing: Signature(): %v", err)
+		}
+		if err := eddsa.Verify(longs[0].Commitments()[0], msg2, sig2); err != nil {
+			return viol("verify", "next-session/signature-invalid", "session after resharing: the signature does not verify under the unchanged public key: %v", err)
+		}
+		info.Fault("next-session-after-resharing")
+	}
 	return nil
 }
 
@@ -547,3 +604,12 @@ func baseKind(k string) string {
 	}
 	return k
 }
+
+// plainDKS is a distributed key share given by its parts (a resharing produces exactly this).
+type plainDKS struct {
+	sh      *share.PriShare
+	commits []kyber.Point
+}
+
+func (p *plainDKS) PriShare() *share.PriShare  { return p.sh }
+func (p *plainDKS) Commitments() []kyber.Point { return p.commits }
